@@ -47,7 +47,7 @@ theorem cancel_queue (orc : Nat → Nat) (st : State) (k : Nat) (o : CQRun.Out)
           · simp only [Prod.mk.injEq] at hf; rw [← hf.1]
           · simp only [Prod.mk.injEq] at hf; rw [← hf.1]
         cases ok <;> simp_all
-      · rename_i hb; simp_all
+      · rename_i hb; rw [if_neg hb]; simp_all
 
 theorem fetch_queue (orc : Nat → Nat) (st : State) (o : CQRun.Out)
     (h : (fetch orc st).out = .cq o) :
@@ -69,7 +69,7 @@ theorem fetch_queue (orc : Nat → Nat) (st : State) (o : CQRun.Out)
         · simp only [Prod.mk.injEq] at hn; rw [← hn.1]
         · simp only [Prod.mk.injEq] at hn; rw [← hn.1]
       cases ok <;> simp_all
-    · rename_i hb; simp_all
+    · rename_i hb; rw [if_neg hb]; simp_all
 
 /-- whenever an operation of the queue-with-memory model answers at all (it did not stop with
     `diverged`/`internal`), its queue component made exactly the calendar-queue model's step and
